@@ -14,6 +14,8 @@
 (*           "cont"    xs : Sequence[int] ; ss : Set[int] ; m : Mapping[str, int] *)
 (*           "nest"    inner : Flat ; opt : int | None = None              *)
 (*           "gen"     G[int]:  v : int   (a specialised generic)          *)
+(*           "genw"    G[int | None]: a wider specialisation of the same    *)
+(*                     generic - another class, never equal to a G[int]    *)
 (*           "genraw"  G (unspecialised): v : Any                          *)
 (*           "miss"    w : int | Missing = MISSING                         *)
 (*           "deep"    rows : Sequence[Sequence[int]] ; idx : Mapping[str, Sequence[int]]    *)
@@ -75,7 +77,7 @@ MutateInput(i) ==
    "invalid_eq" is an invalid replacement that compares equal to the current value (1.0 for the int 1, a tuple of floats
    for a tuple of ints): re-validated and refused like any other; for "flag" the valid replacement compares equal to the
    current value (True for 1) and still has to replace it. *)
-HasInvalidEq(o) == o.cls \in {"flat", "flat2", "gen", "deep"} \/ (o.cls \in {"miss", "cont"} /\ o.val # 0)   \* (an empty container has no such look-alike)
+HasInvalidEq(o) == o.cls \in {"flat", "flat2", "gen", "genw", "deep"} \/ (o.cls \in {"miss", "cont"} /\ o.val # 0)   \* (an empty container has no such look-alike)
 Updated(i, how) ==
   /\ Op /\ i \in DOMAIN heap
   /\ (how = "invalid_eq" => HasInvalidEq(heap[i]))
